@@ -4,7 +4,8 @@ From Coq Require Import List NArith Lia.
 From stdpp Require Import gmap.
 From RaftModel Require Import Base Config Node NodeCodec Cluster ClusterLog ClusterCommit ClusterSnap.
 From RaftProofs Require Import AppendProofs ClusterProofs ClusterLogSpec ClusterLogMain ClusterLogExample
-  ClusterLogSnapSpec ClusterLogSnapMain ClusterLogSnapCex ClusterLogSnapExample ClusterSnapCex.
+  ClusterLogSnapSpec ClusterLogSnapMain ClusterLogSnapCex ClusterLogSnapExample ClusterSnapCex
+  ClusterSnapLMSpec ClusterSnapLMMain ClusterSnapLMCex.
 Open Scope N_scope.
 
 (* ================= LOG MATCHING OVER ALL RUNS OF THE CLUSTER (Model/ClusterLog.v) =================
@@ -62,6 +63,25 @@ Proof. split; [exact snap_init_ok | exact snapshots_do_happen]. Qed.
 Theorem C04_log_matching_with_snapshot_transfer_refuted :
   exists ls g, srun [mk_cfg 3] f3ii_init ls = Some g /\ ~ log_matching (lg_of g).
 Proof. exact log_matching_with_snapshot_transfer_refuted. Qed.
+
+(* what IS true in the system with snapshot transfer, for every run (store failures, crash cuts, requests
+   executed late / twice / in reverse order - F12 included): Log Matching and monotone terms hold above the
+   largest snapshot index stored anywhere in the cluster.  Nothing per-server can be claimed: the stale
+   entries a server keeps below an installed snapshot (F3-ii) are replicated by it when it later leads and
+   end up - overwriting committed entries - on servers that never saw a snapshot
+   (C04_log_matching_above_own_snapshots_refuted, a 5-server run found by the prover). *)
+Theorem C04_log_matching_above_all_snapshots_with_snapshot_transfer : forall cfg g0 ls g,
+  sinit_ok cfg g0 -> srun [cfg] g0 ls = Some g ->
+  log_matching_above_all_snapshots (lg_of g) /\ terms_monotone_above_all_snapshots (lg_of g).
+Proof. exact log_matching_above_all_snapshots_all_runs. Qed.
+Print Assumptions C04_log_matching_above_all_snapshots_with_snapshot_transfer.
+
+Theorem C04_log_matching_above_own_snapshots_refuted : exists cfg g0 ls g,
+  sinit_ok cfg g0 /\ Forall slabel_ok ls /\ srun [cfg] g0 ls = Some g /\
+  ~ log_matching_above_snapshots (lg_of g) /\
+  ~ log_matching_above_own_snapshots (lg_of g) /\
+  ~ terms_monotone (lg_of g).
+Proof. exact log_matching_above_snapshots_refuted. Qed.
 
 (* ================= THE HANDLER (appendEntries) ================= *)
 
